@@ -389,6 +389,16 @@ func FormationMutate(dir, idx int, msg proto4.Object, f Fault) bool {
 				return false
 			}
 			ren.HostSignature[17] ^= 1
+		case "last-no-contract":
+			// the final transaction arrives without its contract / resolution
+			if len(set) > 0 {
+				set[len(set)-1].FileContracts = nil
+				set[len(set)-1].FileContractResolutions = nil
+			}
+		case "last-no-inputs":
+			if len(set) > 0 {
+				set[len(set)-1].SiacoinInputs = nil
+			}
 		case "set-empty":
 			*th.set = nil
 		case "set-drop-last":
@@ -440,7 +450,7 @@ func FormationMuts(rpc string, dir, idx int) []string {
 	case idx == 0:
 		return []string{"input-value+1", "input-value-small", "input-id-flip", "inputs-drop", "input-sig-flip", "input-proof-flip"}
 	default:
-		l := []string{"payout", "missed-host-value", "contract-hostsig-flip", "set-empty", "set-drop-last", "aux-basis-flip", "aux-rentersig-flip", "aux-inputsig-flip"}
+		l := []string{"payout", "missed-host-value", "contract-hostsig-flip", "set-empty", "set-drop-last", "last-no-contract", "last-no-inputs", "aux-basis-flip", "aux-rentersig-flip", "aux-inputsig-flip"}
 		if rpc != "form" {
 			l = append(l, "renewal-hostsig-flip")
 		}
